@@ -832,7 +832,7 @@ impl Sim {
         }
         let Some(gid) = self.gid else {
             // First action creates the graph.
-            self.create_graph(r);
+            self.create_graph(r, cmds);
             return;
         };
         if !self.has_graph(r) {
@@ -1006,6 +1006,17 @@ impl Sim {
             }
             (Err(_), _) if hard => {
                 self.stats.bump("fault.disk_error_failed_call");
+                // A failed action commits no effects, whatever made it fail.
+                // (When storage fails after the policy succeeded the runtime returns without
+                // telling the sink anything: the effects stay unsettled, which the statement
+                // allows - it only forbids committing them. Counted, not asserted.)
+                let (committed, _, dangling) = sink.settle();
+                if !committed.is_empty() {
+                    self.violation("C07", "C07.failed-action-effects", "failed-action-effects", format!("{ctx}: the action failed with an injected disk error, but {} effects were committed", committed.len()));
+                }
+                if !dangling.is_empty() {
+                    self.stats.bump("failed_io_action_effects_left_unsettled");
+                }
                 self.after_failed_io(r, &ctx, &before, "C07");
             }
             (Ok(()), false) => {
@@ -1023,9 +1034,14 @@ impl Sim {
         }
     }
 
-    pub fn create_graph(&mut self, r: usize) {
+    /// Creates the graph. `extra` commands are published by the same action after the init
+    /// command (the graph id must still be the id of the init command, C10).
+    pub fn create_graph(&mut self, r: usize, extra: &[ActCmd]) {
         let n = self.fresh_nonce();
-        let cmds = vec![ActCmd { op: Op::Init, prio: WPrio::Init, nonce: 0xA000 + n }];
+        let mut cmds = vec![ActCmd { op: Op::Init, prio: WPrio::Init, nonce: 0xA000 + n }];
+        // Only commands that cannot be rejected on the state after init.
+        cmds.extend(extra.iter().filter(|c| !matches!(c.op, Op::Guard { .. } | Op::Poison { .. })).cloned());
+        let n_cmds = cmds.len();
         let mut sink = RecSink::default();
         self.log.borrow_mut().actions.clear();
         self.log.borrow_mut().evals.clear();
@@ -1039,15 +1055,26 @@ impl Sim {
                 let act = self.log.borrow().actions.first().cloned().expect("init action ran");
                 let init = act.published[0].clone();
                 if gid.as_bytes() != init.id.as_bytes() {
-                    self.violation("C10", "C10.graph-id", "graph-id-not-init-id", format!("new_graph returned {gid} but the init command is {}", init.id));
+                    self.violation("C10", "C10.graph-id", "graph-id-not-init-id", format!("new_graph returned {gid} but the init command is {} ({} commands were published by the creating action)", init.id, act.published.len()));
+                }
+                if act.published.len() != n_cmds {
+                    self.anomaly(format!("new_graph published {} of {n_cmds} commands", act.published.len()));
+                }
+                if n_cmds > 1 {
+                    self.stats.bump("graph_created_with_extra_commands");
                 }
                 self.g.add(&init);
                 let _ = self.g.validity(&init.id);
                 self.gid = Some(gid);
                 self.init_id = Some(init.id);
+                for c in &act.published[1..] {
+                    self.g.add(c);
+                    let _ = self.g.validity(&c.id);
+                }
+                let all: Vec<CmdId> = act.published.iter().map(|c| c.id).collect();
                 with_rep!(&mut self.reps[r], rep => {
                     rep.has_graph = true;
-                    rep.committed.insert(init.id);
+                    rep.committed.extend(all.iter().copied());
                     rep.counter += 1;
                 });
                 self.fs_done(r, true);
